@@ -44,7 +44,7 @@ fn main() {
     let mut digest: u64 = 0xcbf29ce484222325;
     let (mut systems, mut both_ok, mut plain_err, mut analysis_only_err, mut repeats) = (0usize, 0usize, 0usize, 0usize, 0usize);
     for i in 0..n {
-        let mut sys = match i % 5 {
+        let mut sys = match i % 6 {
             0 => gen_planted(&mut rng, 8, 1e-2, &SHAPES),
             1 => gen_planted(&mut rng, 5, 0.4, &SHAPES),
             2 => {
@@ -54,6 +54,12 @@ fn main() {
             3 => {
                 let b = gen_planted(&mut rng, 5, 1e-2, &SHAPES);
                 with_priorities(&mut rng, b)
+            }
+            4 => {
+                // several requests degenerate at once: the warnings list (order and multiplicity)
+                // is part of the result that must be reproduced
+                let b = gen_planted(&mut rng, 10, 1e-2, &SHAPES);
+                with_collapsed_guess(&mut rng, b)
             }
             _ => {
                 // level 0 pinned, level 1 coincident tangent circles already satisfied (F10 shape)
